@@ -32,6 +32,8 @@ mod find;
 mod runner;
 mod summarize;
 mod stream;
+mod outline;
+mod getters;
 mod retry_options;
 
 fn main() {
@@ -54,6 +56,8 @@ fn main() {
         "filter" => filter::run(),
         "find" => find::run(),
         "stream" => stream::run(&lines),
+        "outline" => outline::run(&text),
+        "getters" => getters::run(&lines),
         m => panic!("unknown mode {m}"),
     }
 }
@@ -114,12 +118,23 @@ fn sc<Wl>(e: &event::RetryableScenario<Wl>) -> String {
         event::Scenario::Hook(t, h) => format!("hook:{t:?}:{}", match h {
             event::Hook::Started => "started",
             event::Hook::Passed => "passed",
-            event::Hook::Failed(..) => "failed",
+            event::Hook::Failed(_, i) => return format!("hook:{t:?}:failed{} r={r}", payload_kind(i)),
         }),
         event::Scenario::Background(s, e) => format!("bg[{}]:{}", s.value, st(e)),
         event::Scenario::Step(s, e) => format!("step[{}]:{}", s.value, st(e)),
     };
     format!("{k} r={r}")
+}
+
+/// which concrete type the type-erased payload of a failure has
+fn payload_kind(i: &event::Info) -> &'static str {
+    if i.downcast_ref::<String>().is_some() || i.downcast_ref::<&'static str>().is_some() {
+        ""
+    } else if i.downcast_ref::<runner::CustomPayload>().is_some() {
+        "+custom"
+    } else {
+        "+unknown-type"
+    }
 }
 
 fn st<Wl>(e: &event::Step<Wl>) -> String {
@@ -130,7 +145,7 @@ fn st<Wl>(e: &event::Step<Wl>) -> String {
         event::Step::Failed(_, _, _, err) => format!("failed:{}", match err {
             event::StepError::NotFound => "notfound",
             event::StepError::AmbiguousMatch(_) => "ambiguous",
-            event::StepError::Panic(_) => "panic",
+            event::StepError::Panic(i) => return format!("failed:panic{}", payload_kind(i)),
         }),
     }
 }
